@@ -154,7 +154,7 @@ class C08(PoolScenario):
                     self.must(call(repr, h), "repr", si)
                 elif what == "eq_self":
                     o = call(lambda: h == h)
-                    if self.must(o, "eq", si) is not True:
+                    if not bool(self.must(o, "eq", si)):
                         raise self.violation(h.name, "eq", "eq-false-on-equal:self", "h == h is False", si)
                 elif what == "zero":
                     self.must(call(h.zero), "zero", si)
